@@ -11,7 +11,7 @@ import selftest
 
 props = set(sys.argv[1:])
 seeds = [s for s in selftest.load("seeds.json") if not props or s["property"] in props]
-diffs = sorted(glob.glob(os.path.join(HERE, "selftest", "neutral_diffs", "*.diff")))
+diffs = sorted(glob.glob(os.path.join(HERE, "selftest", "neutral_diffs", os.environ.get("COMPOUND_GLOB", "*") + ".diff")))
 files_of = {d: set(re.findall(r"^\+\+\+ b/(\S+)", open(d).read(), re.M)) for d in diffs}
 
 
